@@ -171,16 +171,47 @@ def foreign_object(kind):
     raise ValueError(kind)
 
 
-def make_dispatch_mapper(basecls, user_impl, hookret, log):
-    """A user mapper class: the handlers in user_impl log and return a token; every
-    map_* method the base class brings along is wrapped to log and delegate to it; the
-    unsupported hook logs and delegates (or returns a token when hookret)."""
+_EXC = {}
+
+
+def exc_class(name):
+    """The exception class an outcome names: builtins, pymbolic's unsupported-expression error,
+    and two user classes (one derived from AttributeError, one unrelated)."""
+    if not _EXC:
+        import builtins
+
+        from pymbolic.mapper import UnsupportedExpressionError
+        _EXC["UnsupportedExpressionError"] = UnsupportedExpressionError
+        _EXC["UserError"] = type("UserError", (Exception,), {})
+        _EXC["UserAttributeError"] = type("UserAttributeError", (AttributeError,), {})
+        for n in ("AttributeError", "KeyError", "TypeError", "ValueError", "NotImplementedError",
+                  "LookupError", "IndexError", "RuntimeError", "StopIteration"):
+            _EXC[n] = getattr(builtins, n)
+    return _EXC[name]
+
+
+def make_dispatch_mapper(basecls, user_impl, hookret, log, ocs=None, raised=None):
+    """A user mapper class: the handlers in user_impl log and then do what the case's outcome
+    table says (return a token, or raise an exception of the named class; the raised object is
+    noted in `raised`); every map_* method the base class brings along is wrapped to log and
+    delegate to it; the unsupported hook logs and delegates (or, when hookret, does what the
+    table says for it)."""
     ns = {}
+    ocs = ocs or {}
+    raised = raised if raised is not None else []
+
+    def act(name, token):
+        what = ocs.get(name, "return")
+        if what == "return":
+            return token
+        exc = exc_class(what)(f"raised inside {name}")
+        raised.append(exc)
+        raise exc
 
     def user_handler(name):
         def h(self, expr, *args, **kwargs):
             log.append((name, tags_of(args), kw_of(kwargs)))
-            return "ret:" + name
+            return act(name, "ret:" + name)
         return h
 
     def delegate(name):
@@ -199,7 +230,7 @@ def make_dispatch_mapper(basecls, user_impl, hookret, log):
     def hook(self, expr, *args, **kwargs):
         log.append(("handle_unsupported_expression", tags_of(args), kw_of(kwargs)))
         if hookret:
-            return "ret:hook"
+            return act("unsupported", "ret:hook")
         return super(cls, self).handle_unsupported_expression(expr, *args, **kwargs)
     ns["handle_unsupported_expression"] = hook
     cls = type("UserMapper", (basecls,), ns)
@@ -229,12 +260,14 @@ def drive_dispatch(case, extra):
             obs = []
             stubs = []
             for run in extra["runs"]:
-                log = []
+                log, raised = [], []
                 base = CachedMapper if run["mode"] in ("ccall", "cfallback") else Mapper
-                cls, stubs = make_dispatch_mapper(base, c["impl"], run["hookret"], log)
+                cls, stubs = make_dispatch_mapper(base, c["impl"], run["hookret"], log,
+                                                  c.get("ocs"), raised)
                 m = cls()
                 a, k = mk_args(run["ap"])
-                o = {"first": "", "a": [], "k": [], "res": "", "exc": "", "n": 0}
+                o = {"first": "", "a": [], "k": [], "res": "", "exc": "", "n": 0, "seq": [],
+                     "same": True}
                 try:
                     if run["mode"] in ("call", "ccall"):
                         r = m(obj, *a, **k)
@@ -245,9 +278,12 @@ def drive_dispatch(case, extra):
                     raise
                 except Exception as exc:  # noqa: BLE001 - the class is the observation
                     o["exc"] = exc_name(exc)
+                    # is it the very object one of the user's handlers raised?
+                    o["same"] = any(exc is r for r in raised)
                 if log:
                     o["first"], o["a"], o["k"] = log[0]
                 o["n"] = len(log)
+                o["seq"] = [e[0] for e in log[:8]]
                 obs.append(o)
             rec["obs"] = obs
             rec["stubs"] = sorted(stubs)
